@@ -619,6 +619,24 @@ func TestVerif_C08(t *testing.T) {
 		lengths = append(lengths, 1<<20)
 	}
 	pipes := vfC08Pipelines(maxLen)
+	// shuffle with element sizes that are not powers of two (the datatype size of compound,
+	// array and fixed-string elements is arbitrary), alone and in front of deflate; and
+	// lengths that are multiples of those sizes
+	for _, e := range []int{3, 5, 6, 7, 12, 16} {
+		for _, tail := range [][]vfC08Item{nil, {{'d', 6}}} {
+			items := append([]vfC08Item{{'s', e}}, tail...)
+			p := vfC08Pipe{items: items}
+			var ns, ks []string
+			for _, it := range items {
+				ns = append(ns, it.String())
+				ks = append(ks, string(it.kind))
+			}
+			p.name, p.kinds = strings.Join(ns, ">"), strings.Join(ks, ">")
+			pipes = append(pipes, p)
+		}
+	}
+	lengths = append(lengths, 6, 12, 21, 30, 35, 36, 48, 60, 420)
+	sort.Ints(lengths)
 	r.Set("pipelines", len(pipes))
 	r.Set("lengths", lengths)
 	r.Set("contents", vfC08ContentNames)
@@ -825,5 +843,5 @@ func TestVerif_C08(t *testing.T) {
 	r.Set("corrupted_variants_per_decoder", variants)
 	r.Sample(map[string]any{"pipeline": "shuffle(4)>deflate(6)>fletcher32", "length": 4096, "content": "ramp", "checked": "Remove(Apply(p))==p; core.ApplyFilters(Apply(p))==p; every stored byte ^ {01,80,FF} -> error in both decoders; every adjacent word swap -> error"})
 	r.Sample(map[string]any{"pipeline": "fletcher32>lzf", "length": 33, "content": "one-odd-byte", "checked": "every stored byte ^ every mask 01..FF -> error or the original payload, in both decoders"})
-	r.Rule(fmt.Sprintf("every (pipeline, length, content) of the listed grid: %d pipelines (all ordered selections without repetition of <=%d kinds from deflate{1,6,9}, shuffle{1,2,4,8}, fletcher32, lzf, plus the empty one) x %d lengths x 6 contents (+2 period-8192/8193 contents for lengths > 4097); a point is non-trivial when the pipeline is non-empty, the writer accepts it and (length>0 or content==zeros). Corruption: for pipelines containing fletcher32 every byte of the stored chunk (all positions when the stored chunk is <= 1100 bytes [outermost, quick], 4300 [outermost, thorough], 70000 [outermost, thorough, pipelines of <= 2 filters], 600/4300 [inner quick/thorough]; otherwise the listed position sub-grid: first 32, last 40, every 4099th [every 65521st above 100000 bytes], powers of two +-1) x masks {01,80,FF} (all 255 masks for payload length <= 33 when fletcher32 is outermost; thorough: also inner), plus every adjacent non-congruent 16-bit word transposition of the protected part where all positions are enumerated; each variant decoded by the writer's Remove and by core's ApplyFilters", len(pipes), maxLen, len(lengths)))
+	r.Rule(fmt.Sprintf("every (pipeline, length, content) of the listed grid: %d pipelines (all ordered selections without repetition of <=%d kinds from deflate{1,6,9}, shuffle{1,2,4,8}, fletcher32, lzf, plus the empty one, plus shuffle{3,5,6,7,12,16} alone and in front of deflate(6)) x %d lengths x 6 contents (+2 period-8192/8193 contents for lengths > 4097); a point is non-trivial when the pipeline is non-empty, the writer accepts it and (length>0 or content==zeros). Corruption: for pipelines containing fletcher32 every byte of the stored chunk (all positions when the stored chunk is <= 1100 bytes [outermost, quick], 4300 [outermost, thorough], 70000 [outermost, thorough, pipelines of <= 2 filters], 600/4300 [inner quick/thorough]; otherwise the listed position sub-grid: first 32, last 40, every 4099th [every 65521st above 100000 bytes], powers of two +-1) x masks {01,80,FF} (all 255 masks for payload length <= 33 when fletcher32 is outermost; thorough: also inner), plus every adjacent non-congruent 16-bit word transposition of the protected part where all positions are enumerated; each variant decoded by the writer's Remove and by core's ApplyFilters", len(pipes), maxLen, len(lengths)))
 }
